@@ -69,7 +69,19 @@ func Harness_C19_channel() {
 	arg := nondetToken("arg")
 	assume(tokKind(arg) != tkInvalid)
 	params := tokArray([]json.RawMessage{arg})
-	switch nondetChoice("workload", 4) {
+	switch nondetChoice("workload", 5) {
+	case 4: // a request is still in flight when the channel is closed
+		raw := tokObject([]string{"jsonrpc", "id", "method", "params"}, []json.RawMessage{tokString("2.0"), tokLit("1"), tokString("echo"), params})
+		if nondetBool("in-flight-notification") {
+			raw = tokObject([]string{"jsonrpc", "method", "params"}, []json.RawMessage{tokString("2.0"), tokString("echo"), params})
+		}
+		direct := NewChannel("http://bridge/", &ChannelOptions{Client: hc})
+		vassert(direct.Send(raw) == nil, "Send accepts the request")
+		direct.Close()
+		vassert(liveThreadsNow("channel.go", "jhttp.(*Channel)") == "", "C19: when Close returns no request goroutine is left behind")
+		quiesce()
+		vassert(hc.closed == hc.opened, "C19: no HTTP response body is left unclosed, also for a response that nobody received")
+		reach("close-in-flight")
 	case 0: // a call
 		var got json.RawMessage
 		err := cli.CallResult(context.Background(), "echo", params, &got)
